@@ -8,8 +8,8 @@ from props import rt
 PID = "C14"
 LEVEL = "proof"
 MODULE = "Sigc.Props.C14"
-EXTRA_MODULES = ("Sigc.Props.Refine",)   # the refinement P ⊑ S': what the specification says holds of the mechanism model
-REQUIRED = ["Sigc.Refine.refines"]
+EXTRA_MODULES = ("Sigc.Props.Refine", "Sigc.Props.SpecK", "Sigc.Props.SpecProps",)   # refinement P ⊑ S', S' ≡ S on runs clear of the known findings, the statements read off S
+REQUIRED = ["Sigc.Refine.refines", "Sigc.SpecK.model_refines_pure_spec"]
 TRUSTED = rt.TRUSTED_RT
 ASSUMPTIONS = rt.ASSUMPTIONS_RT + []
 PARTIAL = []
